@@ -35,41 +35,19 @@ def c19_oracle(case, impl):
 
     # ---- ground truth from the script ------------------------------------------------------------
     res_of = {int(e.f[2]): e for e in tl.res}
-    submitted = []                    # accepted user requests: [a, token, kind, t_sub]
-    for t, o in tl.ops:
-        if o[0] == "user":
-            a, tok, kind = int(o[1]), int(o[2]), o[3]
-            r = res_of.get(tok)
-            if r is not None and r.t == t and r.f[3] == "err" and r.f[4] in ("too-many-requests", "no-connection"):
-                continue              # refused at once, never queued
-            submitted.append([a, tok, USER_KIND_OF[kind], t])
-    polls = {}                        # (a, mask) -> dict(period, last (completion or creation), demands)
+    submitted = []                    # accepted user requests so far: (a, token, kind, t_sub)
+    polls = {}                        # (a, mask) -> dict(period, last (completion or creation), idx, ...)
     npolls = [0] * n
-    demands = []                      # (t, a, index)
-    for t, o in tl.ops:
-        if o[0] == "add_poll":
-            a = int(o[1])
-            polls[(a, int(o[3]) & 15)] = {"period": int(o[2]), "last": t, "idx": npolls[a], "clean": True}
-            npolls[a] += 1
-        if o[0] == "demand":
-            demands.append((t, int(o[1]), int(o[2])))
+    demands = []                      # (t, a, index) in the order they were issued
 
     # ---- replay of the notifications ----------------------------------------------------------------
     pending = [[] for _ in range(n)]      # queued user requests per association, oldest first
-    nsub = 0
     ring = list(range(n))
     open_task = None                      # (a, type, t) of the application task in progress
     link_until = None                     # a link status task occupies the channel until then
     last_rx = [0] * n                     # last link activity per association (registration at 0)
     connected = False
     open_poll = {}                        # a -> (a, mask) of the poll in progress
-
-    def enqueue_until(t, strict):
-        nonlocal nsub
-        while nsub < len(submitted) and (submitted[nsub][3] < t or (not strict and submitted[nsub][3] == t)):
-            a, tok, kind, ts = submitted[nsub]
-            pending[a].append((tok, kind, ts))
-            nsub += 1
 
     def drop_answered(t):
         # requests answered without ever starting (start refused, or flushed when the session closed)
@@ -86,6 +64,24 @@ def c19_oracle(case, impl):
             open_task = None; link_until = None; open_poll.clear()
             for p in polls.values(): p["clean"] = False
             continue
+        if e.kind == "op":
+            o = e.f[2:]
+            if o[0] == "user":
+                a, tok, kind = int(o[1]), int(o[2]), o[3]
+                r = res_of.get(tok)
+                if not (r is not None and r.t == e.t and r.f[3] == "err" and r.f[4] in ("too-many-requests", "no-connection")):
+                    pending[a].append((tok, USER_KIND_OF[kind], e.t))
+                    submitted.append((a, tok, USER_KIND_OF[kind], e.t))
+            elif o[0] == "add_poll":
+                a = int(o[1])
+                polls[(a, int(o[3]) & 15)] = {"period": int(o[2]), "last": e.t, "idx": npolls[a], "clean": connected,
+                                             "quiet_since": None, "dem": []}
+                npolls[a] += 1
+            elif o[0] == "demand":
+                for key, p in polls.items():
+                    if key[0] == int(o[1]) and p["idx"] == int(o[2]):
+                        p["dem"].append(e.t)
+            continue
         if e.kind == "rx":
             f = tl.rx.get(id(e))
             src = int(e.f[2])
@@ -98,7 +94,6 @@ def c19_oracle(case, impl):
         if is_start:
             a = int(e.f[2])
             kind = "link" if e.kind == "txlink" else e.f[4]
-            enqueue_until(e.t, strict=False)
             drop_answered(e.t)
             # ---- at most one request outstanding
             if open_task is not None:
@@ -115,7 +110,7 @@ def c19_oracle(case, impl):
                     pending[b].pop(0)
             head = pending[a][0] if pending[a] else None
             user = head is not None and head[1] == kind
-            older = [b for b in ring if pending[b] and pending[b][0][2] < e.t]
+            older = [b for b in ring if pending[b]]
             if user:
                 started.add(head[0])
                 # ---- associations take turns: the ring decides among those that were waiting
@@ -148,7 +143,7 @@ def c19_oracle(case, impl):
                     if p is not None:
                         open_poll[a] = key
                         due = p["last"] + p["period"]
-                        dem = [t for t, da, di in demands if da == a and di == p["idx"] and p["last"] <= t <= e.t]
+                        dem = [t for t in p["dem"] if p["last"] <= t <= e.t]
                         if e.t < due and not dem:
                             bad("poll-cadence", "poll %d of association %d started at %d, %d ms after its previous completion at %d (period %d)"
                                 % (p["idx"], a, e.t, e.t - p["last"], p["last"], p["period"]), e)
